@@ -1,7 +1,8 @@
 /-
   Model of the hodograph constructors `operations.derivative_curve`, `operations.derivative_surface`
   and of `operations.tangent` / `operations.normal` (`_operations.tangent_curve_single`,
-  `tangent_surface_single`, `normal_surface_single`; `normalize=False`).
+  `tangent_surface_single`, `normal_surface_single`; `normalize=False`, and `normalize=True` with the
+  magnitude(s) as inputs: `tangentCurveN`, `tangentSurfaceN`, `normalSurfaceN`).
 
   A constructor result is the data handed to the setters of the new object: degree(s), knot vector(s),
   control points.  (The setters of a fresh object normalise the knot vector when the object was
@@ -73,6 +74,32 @@ def tangentSurface (skl : List (List (List K))) : List K × List K × List K :=
 def normalSurface (skl : List (List (List K))) : Option (List K × List K) :=
   (Lin.vectorCross ((skl.getD 1 []).getD 0 []) ((skl.getD 0 []).getD 1 [])).map
     (fun n => ((skl.getD 0 []).getD 0 [], n))
+
+/-! ### `normalize=True`
+
+`linalg.vector_normalize(v)` divides by `vector_magnitude(v) = math.sqrt(Σ vᵢ²)`; the square root is not a model
+quantity: as in `Lin.vectorNormalize` the value the implementation obtained for it is an INPUT (`mag…`; the driver ops
+`tancn` / `tansn` / `nrmsn` receive it from the harness).  `none` = the `ValueError` of `vector_normalize`
+("The magnitude of the vector is zero": `magnitude > 0` fails) or of `vector_cross`.  The 18-decimals print / parse of
+`vector_normalize` is the identity on exact numbers. -/
+
+/-- `tangent_curve_single(obj, u, normalize=True)`: `(ders[0], vector_normalize(ders[1]))` -/
+def tangentCurveN (ders : List (List K)) (mag : K) : Option (List K × List K) :=
+  (Lin.vectorNormalize (tangentCurve ders).2 mag).map (fun t => ((tangentCurve ders).1, t))
+
+/-- `tangent_surface_single(obj, uv, normalize=True)`: `(skl[0][0], vector_normalize(skl[1][0]), vector_normalize(skl[0][1]))`
+    – `skl[1][0]` is normalised first; either call may raise -/
+def tangentSurfaceN (skl : List (List (List K))) (magU magV : K) : Option (List K × List K × List K) :=
+  match Lin.vectorNormalize (tangentSurface skl).2.1 magU with
+  | none => none
+  | some tu => (Lin.vectorNormalize (tangentSurface skl).2.2 magV).map (fun tv => ((tangentSurface skl).1, tu, tv))
+
+/-- `normal_surface_single(obj, uv, normalize=True)`: `(skl[0][0], vector_normalize(vector_cross(skl[1][0], skl[0][1])))`;
+    `mag` = magnitude of the cross product -/
+def normalSurfaceN (skl : List (List (List K))) (mag : K) : Option (List K × List K) :=
+  match normalSurface skl with
+  | none => none
+  | some r => (Lin.vectorNormalize r.2 mag).map (fun n => (r.1, n))
 
 end
 end Geomdl
